@@ -188,3 +188,66 @@ Print Assumptions C04_single_refuted.
 Print Assumptions C04_flat_len_refuted.
 Print Assumptions C04_json_empty_refuted.
 Print Assumptions C04_current_outside_known_classes.
+
+(* ===================== the parser half: every successful parse yields a well-formed queue =====================
+   Model: PV.Comb.{PState,Prog,Exec} (pest/src/parser_state.rs).  `queue s` is the token Vec with its LAST
+   element at the head, so the stream is `rev (queue s)`; `conv` maps the parser-state token constructors
+   to those of PV.Iter.Queue.  Proofs: PV.Comb.Wfq1 / Wfq / Wfq2 (induction on the fuel of `exec`,
+   generalised over the start state: a run appends the tokens of a closed forest to whatever queue it
+   started with; rules in progress are part of that old queue).
+   (1) unconditionally: balanced, properly nested, cross-links and End rules correct (= tokens_of a forest),
+       positions never decrease, every position <= |input|;
+   (2) the char-boundary clause as a hypothesis schema: a state invariant U preserved by every run of
+       programs satisfying V, with U s -> bnd (input s) (pos s) = true, gives the full wfq;
+   (3) the schema instantiated with the UTF-8 theory (PV.Comb.Utf8c.exec_boundary): valid UTF-8 input,
+       programs/environment with valid UTF-8 string constants (&str in Rust), a configuration without the
+       memchr feature or with the repaired three-needle arm: full wfq with bounds = boundaryb input;
+   (4) the same for the public entry point state() (`parse_with ... = OPairs q`). *)
+Require Import PV.Stack.Model PV.Comb.PState PV.Comb.Bytes PV.Comb.Prog PV.Comb.Exec PV.Comb.Frame
+               PV.Comb.Utf8 PV.Comb.Utf8c PV.Comb.Wfq1 PV.Comb.Wfq PV.Comb.Wfq2.
+
+Definition C04_parse_part : Prop :=
+  (forall cfg E fuel p inp lim detail s,
+     exec cfg E fuel p (init inp lim detail) = ROk s ->
+     (exists f, map conv (rev (queue s)) = tokens_of f) /\
+     chain 0 (map qpos (map conv (rev (queue s)))) /\
+     Forall (fun x => x <= length inp) (map qpos (map conv (rev (queue s))))) /\
+  (forall cfg E (bnd : list byte -> nat -> bool) (U : pst -> Prop) (V : prog -> Prop),
+     (forall s s', input s' = input s -> pos s' = pos s -> cache (stack s') = cache (stack s) -> U s -> U s') ->
+     (forall s, U s -> bnd (input s) (pos s) = true) ->
+     (forall p q, V p -> In q (children p) -> V q) ->
+     (forall f q, V (PCall f) -> E f = Some q -> V q) ->
+     (forall fuel p s a, V p -> wf s -> Inv (stack s) a -> U s ->
+        match exec cfg E fuel p s with ROk s' | RErr s' => U s' | _ => True end) ->
+     forall fuel p inp lim detail s,
+       V p -> U (init inp lim detail) ->
+       exec cfg E fuel p (init inp lim detail) = ROk s ->
+       wfq (bnd inp) (length inp) (map conv (rev (queue s)))) /\
+  (forall cfg E fuel p inp lim detail s,
+     cfg_ok cfg -> env_valid E -> prog_valid p -> valid_utf8 inp ->
+     exec cfg E fuel p (init inp lim detail) = ROk s ->
+     wfq (boundaryb inp) (length inp) (map conv (rev (queue s)))) /\
+  (forall cfg E fuel p inp lim detail q,
+     cfg_ok cfg -> env_valid E -> prog_valid p -> valid_utf8 inp ->
+     parse_with cfg E fuel p inp lim detail = OPairs q ->
+     wfq (boundaryb inp) (length inp) (map conv q)).
+
+Theorem C04_parse : C04_parse_part.
+Proof.
+  split; [exact exec_preserves_wfq|]. split; [exact exec_preserves_wfq_from_boundary|].
+  split; [exact exec_preserves_wfq_utf8|exact parse_wfq_utf8].
+Qed.
+
+Theorem C04_token_stream_and_views : C04_statement_with C04_parse_part.
+Proof. exact (C04_iterators_partial _ C04_parse). Qed.
+
+(* non-vacuity of the parser half: a run producing a(b#7, c(d)) over a 2-byte char, checked by wfqb *)
+Example C04_parse_example :
+  match exec ex_cfg (fun _ => None) 20 ex_prog (init ex_inp None false) with
+  | ROk s => wfqb (boundaryb ex_inp) (length ex_inp) (map conv (rev (queue s)))
+  | _ => false
+  end = true.
+Proof. vm_compute. reflexivity. Qed.
+
+Print Assumptions C04_parse.
+Print Assumptions C04_token_stream_and_views.
